@@ -43,6 +43,20 @@ def units(tier, seed):
             if tier == "quick" and model == "poisson" and names["A"] != "asc" and sum(names[k] not in ("default", "ub-finite") for k in ("bounds", "K", "baseline")) > 1:
                 continue
             out.append(dict(model=model, names=names, spec=B.spec_of(A, lb, ub, K, bl), tier=tier))
+    # weighted Poisson likelihood (per-receptor weights)
+    for (m, n) in [(2, 2), (2, 3), (3, 3), (3, 2)]:
+        for aname, A in AL.A_palette(m, n, seed=seed, seeded=False)[:1]:
+            for bn, kn, sn in (("ub-finite", "default", "default"), ("lb-mixed", "vector", "vector"), ("scalar", "scalar", "scalar")):
+                bm = {b[0]: b for b in AL.bounds_menu(n)}[bn]
+                names = dict(shape="%dx%d" % (m, n), A=aname, bounds=bn, K=kn, baseline=sn, weights="vector")
+                out.append(dict(model="poisson", names=names, tier=tier,
+                                spec=B.spec_of(A, bm[1], bm[2], dict(AL.K_menu(m))[kn], dict(AL.baseline_menu(m))[sn], AL.w_menu(m)[1][1])))
+    # excitation saturates (e = q / (1 + q)): systems with captures of order one and a baseline of the same size are the sensitive ones
+    for (m, n) in [(2, 2), (3, 2), (2, 3)]:
+        A = AL.A_palette(m, n, seed=seed, seeded=False)[0][1] / 8.0
+        for sn, bl in (("large-vector", 0.4 + 0.55 * np.arange(m)[::-1]), ("default", None)):
+            names = dict(shape="%dx%d" % (m, n), A="asc/8", bounds="ub-finite", K="default", baseline=sn, weights="default")
+            out.append(dict(model="excitation", names=names, tier=tier, spec=B.spec_of(A, np.zeros(n), 1.0 + np.arange(n) / 4.0, None, bl), more_outside=True))
     out.sort(key=lambda u: 0 if u["model"] == "excitation" else 1)
     return out
 
@@ -83,11 +97,17 @@ def run_unit(unit, rec):
     m, n = Abar.shape
     bounded = bool(np.all(np.isfinite(hi)))
     T, ext = _targets(Abar, c0, lo, hi, few=(model == "excitation" and tier == "quick"))
+    if unit.get("more_outside"):
+        cen = c0 + Abar @ ((lo + hi) / 2)
+        for k in range(m):
+            e = np.zeros(m)
+            e[k] = 1.0
+            T.append(("outside", np.maximum(cen + 0.8 * ext * e - 0.3 * ext * (1 - e), 0.02)))
     P = np.array([t[1] for t in T])
-    w = np.ones(m)
+    w = np.ones(m) if spec.get("w") is None else np.asarray(spec["w"], dtype=float)
     base = dict(names, model=model, bounds_kind="bounded" if bounded else "unbounded")
     rng_ = np.where(np.isfinite(hi), hi - lo, 1.0)
-    regime_sys = 1.0 <= ext <= 100.0
+    regime_sys = (1.0 <= ext <= 100.0) or bool(unit.get("more_outside"))
     rec.path()
     rec.trans()
     try:
